@@ -276,3 +276,44 @@ def memoryless_setters(model, rep, setters, rule='state-reuse-keyed'):
     if 'v' not in rr or rr['v'].value_deps - rr['v'].guard_deps != {'b'}:
         raise AnalysisError('memo engine self-check failed on the synthetic conditional reuse')
     return n
+
+
+# ---------------------------------------------------------------- rotations act from the left
+GROUPOP_NAMES = ('self', 'other', 'g', 'g0', 'g1', 'g2', 'gop', 'ginv')
+
+
+def rotations_from_left(model, rep, scope, rule='operator-side', min_instances=1):
+    """In every function of ``scope`` (list of (module, qualified-name prefix)): a rotation operator (``.cartrot``, ``.rot``
+    of a group operation, or a local computed as lattice . M . invlatt) that multiplies a non-operator stands on the left,
+    or is explicitly transposed when it stands on the right.  ``np.dot(v, R)`` is R^T v -- the inverse rotation -- which
+    coincides with R v only for operations of order two (what cubic/hexagonal test cases with scalar data exercise)."""
+    from ..engines import coordkind
+    rep.rule(rule, 'a rotation matrix applied to a vector/tensor is the left factor of the product (or transposed on the right)')
+    n = 0
+    fields = {}
+    for who in GROUPOP_NAMES:
+        for f, k in {'rot': 'op:latt', 'trans': 'unit', 'cartrot': 'op:cart'}.items():
+            fields['%s.%s' % (who, f)] = k
+    for mname, prefix in scope:
+        mod = model.mod(mname)
+        for q, fn in mod.functions.items():
+            if not q.startswith(prefix):
+                continue
+            if any(q != o and q.startswith(o + '.') and o in mod.functions for o in mod.functions):
+                continue  # nested functions are walked with their parents
+            ty, _ = coordkind.type_function(fn, {}, fields=fields)
+            for node, side, tr in coordkind.rotation_sides(fn, ty):
+                n += 1
+                ok = side == 'left' or tr
+                rep.ob(rule, mod, node, '%s: %s  [rotation on the %s%s]' % (q, unparse(node)[:80], side, ', transposed' if tr else ''),
+                       ok, '' if ok else 'the rotation is the right factor of the product and is not transposed: this applies the '
+                                         'inverse operation (identical only for operations of order two)', engine='coordkind', qual=q)
+    rep.floor('rotation applications', n, min_instances)
+    # synthetic positive example
+    probe = ast.parse('def f(self, g, s):\n    return np.dot(s, g.cartrot)\n').body[0]
+    from ..model import attach_parents
+    attach_parents(probe)
+    ty, _ = coordkind.type_function(probe, {}, fields=fields)
+    if [(s_, t_) for _, s_, t_ in coordkind.rotation_sides(probe, ty)] != [('right', False)]:
+        raise AnalysisError('coordkind self-check failed on the synthetic right-hand rotation')
+    return n
